@@ -138,6 +138,33 @@ func (f *faultSwitch) mode() string {
 
 var errInjected = errors.New("injected fault")
 
+// reentry makes the user-supplied components of one world RE-ENTRANT: the first time the callback
+// named site ("proc.Shutdown", "proc.ForceFlush", "proc.OnStart", "proc.OnEnd", "proc.OnEmit",
+// "exp.Export", "exp.Shutdown", "exp.ForceFlush", "callback", "producer") runs, it calls back into its
+// own provider (do), from inside the callback, before returning. One firing per world, so the
+// re-entrant call cannot recurse into itself.
+type reentry struct {
+	site  string
+	do    func(comp string)
+	fired atomic.Bool
+}
+
+func (r *reentry) fire(site, comp string) {
+	if r == nil || r.site != site || !r.fired.CompareAndSwap(false, true) {
+		return
+	}
+	r.do(comp)
+}
+
+// reentryRef is shared by the components of a world; the re-entry is armed after construction.
+type reentryRef struct{ p atomic.Pointer[reentry] }
+
+func (r *reentryRef) fire(site, comp string) {
+	if r != nil {
+		r.p.Load().fire(site, comp)
+	}
+}
+
 // failIf returns errInjected (joined with err) when the switch is in mode.
 func (f *faultSwitch) failIf(mode string, err error) error {
 	if f.is(mode) {
@@ -207,6 +234,7 @@ type compBase struct {
 	sdGate   *gate // holds the component's Shutdown (directed schedules)
 	frozen   *bool // log world: deliveries after the provider went down are outside the projection
 	fault    *faultSwitch
+	re       *reentryRef
 }
 
 // ---------------------------------------------------------------- trace components
@@ -223,6 +251,7 @@ func (e *tExp) ExportSpans(_ context.Context, spans []sdktrace.ReadOnlySpan) err
 	if len(items) == 0 {
 		return nil // probe spans only
 	}
+	e.c.re.fire("exp.Export", e.c.id)
 	e.c.em.ev("Export", "c", e.c.id, "items", items, "val", 0)
 	e.c.f.mu.Lock()
 	for _, n := range items {
@@ -239,6 +268,7 @@ func (e *tExp) Shutdown(context.Context) error {
 	e.c.f.mu.Lock()
 	e.c.f.xsd++
 	e.c.f.mu.Unlock()
+	e.c.re.fire("exp.Shutdown", e.c.id)
 	return e.c.fault.failIf("comp", nil)
 }
 
@@ -257,8 +287,8 @@ type bspOpts struct {
 	timeout        time.Duration
 }
 
-func newTProc(id, kind string, em *emitter, sh *shaker, bo bspOpts, fs *faultSwitch) *tProc {
-	p := &tProc{compBase: compBase{id: id, kind: kind, f: newFacts(), em: em, sh: sh, fault: fs}, seen: map[string]bool{}}
+func newTProc(id, kind string, em *emitter, sh *shaker, bo bspOpts, fs *faultSwitch, re *reentryRef) *tProc {
+	p := &tProc{compBase: compBase{id: id, kind: kind, f: newFacts(), em: em, sh: sh, fault: fs, re: re}, seen: map[string]bool{}}
 	var exp sdktrace.SpanExporter
 	if kind == "simple" || kind == "batch" {
 		exp = &tExp{c: &p.compBase}
@@ -291,6 +321,7 @@ func (p *tProc) OnStart(ctx context.Context, s sdktrace.ReadWriteSpan) {
 		p.f.mu.Lock()
 		p.f.beg[n] = true
 		p.f.mu.Unlock()
+		p.re.fire("proc.OnStart", p.id)
 	} else {
 		p.pmu.Lock()
 		p.seen["start:"+s.Name()] = true
@@ -311,6 +342,7 @@ func (p *tProc) OnEnd(s sdktrace.ReadOnlySpan) {
 			p.f.late++
 		}
 		p.f.mu.Unlock()
+		p.re.fire("proc.OnEnd", p.id)
 	} else {
 		p.pmu.Lock()
 		p.seen["end:"+s.Name()] = true
@@ -329,6 +361,7 @@ func (p *tProc) Shutdown(ctx context.Context) error {
 	p.f.mu.Unlock()
 	p.sdGate.wait()
 	p.sh.point()
+	p.re.fire("proc.Shutdown", p.id)
 	if p.inner != nil {
 		return p.fault.failIf("comp", p.inner.Shutdown(ctx))
 	}
@@ -340,6 +373,7 @@ func (p *tProc) ForceFlush(ctx context.Context) error {
 	p.f.ff++
 	p.f.mu.Unlock()
 	p.sh.point()
+	p.re.fire("proc.ForceFlush", p.id)
 	if p.inner != nil {
 		return p.fault.failIf("comp", p.inner.ForceFlush(ctx))
 	}
@@ -368,6 +402,7 @@ func (e *lExp) Export(_ context.Context, recs []sdklog.Record) error {
 	if len(items) == 0 {
 		return nil
 	}
+	e.c.re.fire("exp.Export", e.c.id)
 	e.c.em.ev("Export", "c", e.c.id, "items", items, "val", 0)
 	e.c.f.mu.Lock()
 	for _, n := range items {
@@ -383,17 +418,21 @@ func (e *lExp) Shutdown(context.Context) error {
 	e.c.f.mu.Lock()
 	e.c.f.xsd++
 	e.c.f.mu.Unlock()
+	e.c.re.fire("exp.Shutdown", e.c.id)
 	return e.c.fault.failIf("comp", nil)
 }
-func (e *lExp) ForceFlush(context.Context) error { return e.c.fault.failIf("comp", nil) }
+func (e *lExp) ForceFlush(context.Context) error {
+	e.c.re.fire("exp.ForceFlush", e.c.id)
+	return e.c.fault.failIf("comp", nil)
+}
 
 type lProc struct {
 	compBase
 	inner sdklog.Processor
 }
 
-func newLProc(id, kind string, em *emitter, sh *shaker, interval time.Duration, frozen *bool, fs *faultSwitch) *lProc {
-	p := &lProc{compBase: compBase{id: id, kind: kind, f: newFacts(), em: em, sh: sh, frozen: frozen, fault: fs}}
+func newLProc(id, kind string, em *emitter, sh *shaker, interval time.Duration, frozen *bool, fs *faultSwitch, re *reentryRef) *lProc {
+	p := &lProc{compBase: compBase{id: id, kind: kind, f: newFacts(), em: em, sh: sh, frozen: frozen, fault: fs, re: re}}
 	var exp sdklog.Exporter
 	if kind == "simple" || kind == "batch" {
 		exp = &lExp{c: &p.compBase}
@@ -422,6 +461,7 @@ func (p *lProc) OnEmit(ctx context.Context, r *sdklog.Record) error {
 			p.f.late++
 		}
 		p.f.mu.Unlock()
+		p.re.fire("proc.OnEmit", p.id)
 	}
 	p.sh.point()
 	if p.inner != nil {
@@ -437,6 +477,7 @@ func (p *lProc) Shutdown(ctx context.Context) error {
 	p.f.mu.Unlock()
 	p.sdGate.wait()
 	p.sh.point()
+	p.re.fire("proc.Shutdown", p.id)
 	if p.inner != nil {
 		return p.fault.failIf("comp", p.inner.Shutdown(ctx))
 	}
@@ -445,6 +486,7 @@ func (p *lProc) Shutdown(ctx context.Context) error {
 
 func (p *lProc) ForceFlush(ctx context.Context) error {
 	p.sh.point()
+	p.re.fire("proc.ForceFlush", p.id)
 	if p.inner != nil {
 		return p.fault.failIf("comp", p.inner.ForceFlush(ctx))
 	}
@@ -488,22 +530,32 @@ func (e *mExp) Export(_ context.Context, rm *metricdata.ResourceMetrics) error {
 	e.c.f.last = v
 	e.c.f.mu.Unlock()
 	e.c.sh.point()
+	e.c.re.fire("exp.Export", e.c.id)
 	return e.c.fault.failIf("exporter", nil)
 }
-func (e *mExp) ForceFlush(context.Context) error { return e.c.fault.failIf("exporter", nil) }
+func (e *mExp) ForceFlush(context.Context) error {
+	e.c.re.fire("exp.ForceFlush", e.c.id)
+	return e.c.fault.failIf("exporter", nil)
+}
 func (e *mExp) Shutdown(context.Context) error {
 	e.c.em.ev("ExpShutdown", "c", e.c.id)
 	e.c.f.mu.Lock()
 	e.c.f.xsd++
 	e.c.f.mu.Unlock()
+	e.c.re.fire("exp.Shutdown", e.c.id)
 	return e.c.fault.failIf("exporter", nil)
 }
 
 // faultProducer is the external Producer registered on every reader (WithProducer): it contributes
 // nothing, and fails while the switch says "producer".
-type faultProducer struct{ fs *faultSwitch }
+type faultProducer struct {
+	fs *faultSwitch
+	re *reentryRef
+	id string
+}
 
 func (p faultProducer) Produce(context.Context) ([]metricdata.ScopeMetrics, error) {
+	p.re.fire("producer", p.id)
 	return nil, p.fs.failIf("producer", nil)
 }
 
@@ -542,12 +594,12 @@ type mReader interface {
 	sdkmetric.Reader
 }
 
-func newMReader(id, kind string, em *emitter, sh *shaker, interval time.Duration, fs *faultSwitch) (mReader, *compBase) {
-	c := &compBase{id: id, kind: kind, f: newFacts(), em: em, sh: sh, fault: fs}
+func newMReader(id, kind string, em *emitter, sh *shaker, interval time.Duration, fs *faultSwitch, re *reentryRef) (mReader, *compBase) {
+	c := &compBase{id: id, kind: kind, f: newFacts(), em: em, sh: sh, fault: fs, re: re}
 	if interval == 0 {
 		interval = time.Hour
 	}
-	prod := faultProducer{fs}
+	prod := faultProducer{fs, re, id}
 	switch kind {
 	case "manual":
 		return &mManual{ManualReader: sdkmetric.NewManualReader(sdkmetric.WithProducer(prod)), c: c}, c
@@ -613,6 +665,7 @@ func sortedIDs[V any](m map[string]V) []string { return vh.SortedKeys(m) }
 // ---- trace world
 
 type tpWorld struct {
+	re    *reentryRef
 	fault *faultSwitch
 	tp    *sdktrace.TracerProvider
 	comps map[string]*tProc
@@ -623,9 +676,9 @@ type tpWorld struct {
 }
 
 func newTPWorld(kinds map[string]string, init []string, em *emitter, sh *shaker, bo map[string]bspOpts) *tpWorld {
-	w := &tpWorld{comps: map[string]*tProc{}, fault: &faultSwitch{}}
+	w := &tpWorld{comps: map[string]*tProc{}, fault: &faultSwitch{}, re: &reentryRef{}}
 	for _, id := range sortedIDs(kinds) {
-		w.comps[id] = newTProc(id, kinds[id], em, sh, bo[id], w.fault)
+		w.comps[id] = newTProc(id, kinds[id], em, sh, bo[id], w.fault, w.re)
 	}
 	opts := []sdktrace.TracerProviderOption{sdktrace.WithSampler(sdktrace.AlwaysSample())}
 	for _, id := range init {
@@ -735,6 +788,7 @@ func (w *tpWorld) cleanup() {
 // ---- log world
 
 type lpWorld struct {
+	re     *reentryRef
 	fault  *faultSwitch
 	lp     *sdklog.LoggerProvider
 	comps  map[string]*lProc
@@ -745,14 +799,14 @@ type lpWorld struct {
 }
 
 func newLPWorld(kinds map[string]string, order []string, em *emitter, sh *shaker, interval time.Duration, freeze bool) *lpWorld {
-	w := &lpWorld{comps: map[string]*lProc{}, order: order, fault: &faultSwitch{}}
+	w := &lpWorld{comps: map[string]*lProc{}, order: order, fault: &faultSwitch{}, re: &reentryRef{}}
 	var opts []sdklog.LoggerProviderOption
 	var fz *bool
 	if freeze {
 		fz = &w.frozen
 	}
 	for _, id := range order {
-		w.comps[id] = newLProc(id, kinds[id], em, sh, interval, fz, w.fault)
+		w.comps[id] = newLProc(id, kinds[id], em, sh, interval, fz, w.fault, w.re)
 		opts = append(opts, sdklog.WithProcessor(w.comps[id]))
 	}
 	w.lp = sdklog.NewLoggerProvider(opts...)
@@ -834,6 +888,7 @@ func (w *lpWorld) cleanup() {
 // ---- metric world
 
 type mpWorld struct {
+	re        *reentryRef
 	fault     *faultSwitch
 	mp        *sdkmetric.MeterProvider
 	readers   map[string]mReader
@@ -845,10 +900,10 @@ type mpWorld struct {
 }
 
 func newMPWorld(kinds map[string]string, order []string, em *emitter, sh *shaker, interval time.Duration) (w *mpWorld) {
-	w = &mpWorld{readers: map[string]mReader{}, comps: map[string]*compBase{}, order: order, fault: &faultSwitch{}}
+	w = &mpWorld{readers: map[string]mReader{}, comps: map[string]*compBase{}, order: order, fault: &faultSwitch{}, re: &reentryRef{}}
 	var opts []sdkmetric.Option
 	for _, id := range order {
-		r, c := newMReader(id, kinds[id], em, sh, interval, w.fault)
+		r, c := newMReader(id, kinds[id], em, sh, interval, w.fault, w.re)
 		w.readers[id], w.comps[id] = r, c
 		opts = append(opts, sdkmetric.WithReader(r))
 	}
@@ -869,12 +924,18 @@ func newMPWorld(kinds map[string]string, order []string, em *emitter, sh *shaker
 	func() {
 		// an observable instrument whose callback observes nothing, and fails while the switch says "callback"
 		defer func() { _ = recover() }()
-		fs := w.fault
+		fs, re := w.fault, w.re
 		_, _ = w.mp.Meter("c15-old").Int64ObservableGauge("c15.obs",
-			metric.WithInt64Callback(func(context.Context, metric.Int64Observer) error { return fs.failIf("callback", nil) }))
+			metric.WithInt64Callback(func(context.Context, metric.Int64Observer) error {
+				obsCallback(re)
+				return fs.failIf("callback", nil)
+			}))
 	}()
 	return w
 }
+
+// obsCallback is the body of the observable callback (a named function so that it shows in stack chains).
+func obsCallback(re *reentryRef) { re.fire("callback", "") }
 
 func isNoopMeter(m metric.Meter) bool {
 	_, ok := m.(metricnoop.Meter)
